@@ -373,7 +373,7 @@ func (g *gen) getRequest() *gnmi.GetRequest {
 	valid := g.r.Intn(3) != 0
 	for i := 0; i < n; i++ {
 		if valid {
-			p := g.validUpdate(g.pick([]string{"t1", "t2"})).Path
+			p := g.validUpdate(g.pick([]string{"t1", "t2", "t1", "t2", "t4"})).Path
 			switch g.r.Intn(5) {
 			case 0:
 				p.Elem = p.Elem[:1]
@@ -429,13 +429,36 @@ func (g *gen) subStream() []*gnmi.SubscribeRequest {
 }
 
 func (g *gen) lsqRequest() *adminapi.LeafSelectionQueryRequest {
-	r := &adminapi.LeafSelectionQueryRequest{Target: g.pick([]string{"t1", "t2", "t1", "t3", "", "nosuch"}), Type: "devicesim", Version: "1.0.0",
+	// t4: its configuration exists but holds no value (a discovered, never configured target: the store
+	// returns Values == nil); t1 / t2: populated by the Sets of the stream; t3 / nosuch / "": no configuration
+	r := &adminapi.LeafSelectionQueryRequest{Target: g.pick([]string{"t1", "t2", "t1", "t4", "t4", "t3", "", "nosuch"}), Type: "devicesim", Version: "1.0.0",
 		SelectionPath: g.pick([]string{"/foo", "", "/list[k=1]/v", "a(", "/a]"})}
 	if g.chance(8) {
 		r.Type = g.pick([]string{"", "nomodel", "devicesim"})
 		r.Version = g.pick([]string{"", "2.0.0", "9"})
 	}
-	if !g.chance(3) {
+	switch g.r.Intn(6) {
+	case 0: // no change context
+	case 1, 2: // a small, valid change context: updates / replaces / deletes that pass the model checks
+		cx := &gnmi.SetRequest{}
+		tgt := g.pick([]string{r.Target, "", "t1"})
+		n := 1 + g.r.Intn(2)
+		for i := 0; i < n; i++ {
+			u := g.validUpdate(tgt)
+			switch g.r.Intn(4) {
+			case 0:
+				cx.Replace = append(cx.Replace, u)
+			case 1:
+				cx.Delete = append(cx.Delete, u.Path)
+			default:
+				cx.Update = append(cx.Update, u)
+			}
+		}
+		if g.chance(3) {
+			cx.Prefix = &gnmi.Path{Target: tgt}
+		}
+		r.ChangeContext = cx
+	default:
 		cx := g.setRequest()
 		if g.chance(2) { // the change context names no targets of its own
 			for _, u := range cx.Update {
